@@ -27,6 +27,8 @@ type decHooks struct {
 	pins map[string]*sym.Term
 	// enter lists operand decoders that are entered instead of summarised
 	enter map[string]bool
+	// natN, when set, pins the byte count returned by decodeNatural (a key)
+	natN *int64
 }
 
 func (c *Ctx) newDecHooks() *decHooks {
@@ -92,6 +94,9 @@ func (h *decHooks) Call(in *sym.Interp, fr *sym.Frame, site ssa.CallInstruction,
 		res := callee.Signature.Results()
 		val := sym.Atom("val@"+id, res.At(0).Type())
 		n := sym.Atom("n@"+id, res.At(1).Type())
+		if h.natN != nil && name == "decodeNatural" {
+			n = sym.Int(*h.natN)
+		}
 		ev := in.Emit(fr, "consume", site, name, args, nil)
 		if ev != nil {
 			ev.Result = sym.Tuple(val, n)
